@@ -107,6 +107,26 @@ CHECKS += [
           "are unconstrained; budget 64 eps(result dtype) * size.",
   "technique": "bounded exhaustive enumeration of call configurations on the real code against three reference models (library, independent library, long-double definition)"},
 ]
+CHECKS += [
+ {"property_id": "C07",
+  "text": "Bounded exhaustive exploration of Phase arithmetic: 16 counts (0..2^52-1, half-integer and un-normalised inputs) x 17 "
+          "fractions (exact +-1/2, 1/2-2^-54, denormal, -1e-20) x EVERY operand kind (Python int/float/bool/complex, NumPy scalars, "
+          "0-d/1-d/2-d arrays, lists, dimensionless/cycle/degree Quantities, Angle, Phase, Phase arrays) x both operand orders x "
+          "real/imaginary, for construction (1 and 2 operands), + - neg abs, * / by 16 factors + imaginary factors, // % divmod "
+          "np.divmod by 6 divisors x 4 kinds, sin/cos/tan/exp, out= forms, and the whole grid as one array. Oracle: Fractions "
+          "of the operands' stored doubles, 2^-52 cycles, normalisation, type (never a silent single double), i*i=-1.",
+  "note": "Trusts Fractions; results beyond 2^52 cycles and plain-number divisors of // % divmod (astropy unit error) are outside / open.",
+  "technique": "bounded exhaustive enumeration of a value grid x operand-kind alphabet on the real code against an exact rational reference model"},
+ {"property_id": "C15",
+  "text": "Bounded exhaustive exploration: all ordered pairs of an 80-value grid (ties, near-ties below the double resolution of the "
+          "count, mixed signs) x 6 comparisons x operator/ufunc/reversed/array/Quantity forms; ALL arrays of length <= 3 (4 "
+          "thorough) over a 10-value subset plus all 6^4 length-4 arrays over the six hardest values, with 2x2 reshapes and every "
+          "axis, for min max argmin argmax sort argsort ptp; EVERY string of a 2 900-string decimal grammar for from_string (and "
+          "arrays of strings); to_string(), precision 0..12 and format '.kf' on 8 counts x 23 fractions x both signs; round trip.",
+  "note": "Trusts Fractions and a regular-expression notion of 'plain decimal'; for exact ties any consistent index/permutation is "
+          "accepted; imaginary flag of exact zero and '.0f' formatting are left open.",
+  "technique": "bounded exhaustive enumeration (all pairs / all short arrays / all grammar strings) on the real code against exact rational ordering and decimal models"},
+]
 _ALL = ["C%02d" % i for i in range(1, 21)]
 NOT_APPLICABLE = [{"property_id": p, "reason": "check not yet built in this session (planned in DESIGN.md; no claim made yet)"}
                   for p in _ALL if p not in {c["property_id"] for c in CHECKS}]
